@@ -279,10 +279,15 @@ class ProbUGrammar(TaggedUGrammar[float, U, V, W]):
             tags[S] = {}
             for P in self.tags[S]:
                 if isinstance(P, Constant) and P.type in constants:
-                    for val in constants[P.type]:
-                        tags[S][Constant(P.type, val, True)] = {
-                            k: v / len(constants[P.type])
-                            for k, v in self.tags[S][P].items()
+                    # equal values give one rule: share the mass between the rules created
+                    instances = list(
+                        dict.fromkeys(
+                            Constant(P.type, val, True) for val in constants[P.type]
+                        )
+                    )
+                    for instance in instances:
+                        tags[S][instance] = {
+                            k: v / len(instances) for k, v in self.tags[S][P].items()
                         }
                 else:
                     tags[S][P] = self.tags[S][P]
